@@ -11,7 +11,7 @@ echo "== clean tree: demo"
 cargo test --offline $FF --test seeded_demo 2>&1 | grep -E "^test result|error\[" | head -3
 git apply "$PATCH" || { echo "PATCH DOES NOT APPLY"; rm -rf tests; exit 3; }
 echo "== patched: existing suite"
-cargo test --offline --lib --doc 2>&1 | grep -E "^test result|error\[" | head -3
+cargo test --offline --lib 2>&1 | grep -E "^test result|error\[" | head -2; cargo test --offline --doc 2>&1 | grep -E "^test result|error\[" | head -2
 cargo test --offline --features cached,watcher --lib 2>&1 | grep -E "^test result|error\[" | head -2
 echo "== patched: demo"
 cargo test --offline $FF --test seeded_demo 2>&1 | grep -E "^test result|error\[" | head -3
